@@ -501,6 +501,8 @@ class Machine:
             # ---- CFF2 variation operators
             if op == "vsindex":
                 r.features.add("vsindex")
+                if depth:
+                    r.features.add("vsindex-in-subr")
                 if not st:
                     raise T2Error("vsindex on empty stack")
                 if self.blend_seen or self.path_started or r.n_hints:
